@@ -592,6 +592,14 @@ class _QueryMessage(_MessageType):
                     "Keyspaces may only be set on queries with protocol version "
                     "5 or DSE_V2 or higher. Consider setting Cluster.protocol_version.")
 
+        if protocol_version == 1:
+            # the v1 QUERY body is <query><consistency>: there is no flags byte
+            if flags:
+                raise UnsupportedOperation(
+                    "Query parameters and client timestamps require the use of protocol version "
+                    "2 or higher. Consider setting Cluster.protocol_version to 2.")
+            return
+
         if ProtocolVersion.uses_int_query_flags(protocol_version):
             write_uint(f, flags)
         else:
